@@ -481,6 +481,7 @@ impl<'a> Tx<'a> {
                 }
                 return format!("treebin_drop(h, {})", a);
             }
+            "num_cpus" if self.ops => return "num_cpus()".into(), // R64: the number of CPUs is an arbitrary positive number (external)
             "Guard::unprotected" => return "()".into(),
             "std::thread::yield_now" | "thread::yield_now" if self.ops => return "()".into(), // R63: a scheduling hint has no arena counterpart
             "Shared::null" | "Atomic::null" => return "NULL".into(),
@@ -849,6 +850,19 @@ impl<'a> Tx<'a> {
                 format!("cmp_{}({}, {})", name, a, b)
             }
             "next_power_of_two" if self.ops => format!("{}.next_power_of_two()", self.expr(&m.receiver)),
+            "is_ok" if self.ops && matches!(&*m.receiver, syn::Expr::MethodCall(ce) if ce.method == "cas_bin") => {
+                // R65: table.cas_bin(i, expected, new, guard).is_ok() -> h.cas_bin_ok(table, i, expected, new)
+                if let syn::Expr::MethodCall(ce) = &*m.receiver {
+                    let r = self.expr(&ce.receiver);
+                    let mut all = vec![r];
+                    for a in ce.args.iter().filter(|a| !is_drop_arg(a)) {
+                        let v = self.expr(a);
+                        all.push(self.hoist(v));
+                    }
+                    return format!("h.cas_bin_ok({})", all.join(", "));
+                }
+                String::new()
+            }
             "is_err" if self.ops && matches!(&*m.receiver, syn::Expr::MethodCall(ce) if ce.method == "compare_exchange" && toks(&*ce.receiver).replace(' ', "").starts_with("self.")) => {
                 // R52: .. .is_err() is the negation
                 if let syn::Expr::MethodCall(ce) = &*m.receiver {
